@@ -26,7 +26,7 @@ class C11(PropBase):
                     yield dict(directed=directed, removal=True, hist=h, family='int', functional=False, gattr=i % 3)
 
     def n_random(self, tier):
-        return 500 if tier == 'quick' else 8000
+        return 500 if tier == 'quick' else 30000
 
     def random_cases(self, rnd, n):
         for _ in range(n):
